@@ -487,7 +487,7 @@ L2_RULE = ("MACRO LEVEL: generated multi-cache histories (30-120 operations + cl
            "operation: returned value, body executed?, predicate/check invocations, key listing (never-matching invalidate_with predicate) and stats_registry are compared with the wrapper model. ")
 
 prop("C01", ["l1", "l2", "key", "conc"], "exploration",
-     CONC_RULE + "Under concurrency every execution returns a unique value (invalidate_on verdicts scripted per call): a call must not be served a value once a later execution for the same key has stored another one and returned. " + L1_RULE + L2_RULE + "KEY LEVEL (shared with C02): adversarial argument pairs on 48 signature shapes; a call served from another tuple's entry is reported here as 'a value stored for other arguments'. Non-trivial = a lookup of a stored key (value must be the last one stored for that key); distinct = distinct (configuration, key, hit-count class, store size).",
+     CONC_RULE + "Under concurrency every execution returns a unique value (invalidate_on verdicts scripted per call): a call must not be served a value once a later execution for the same key has stored another one and returned. " + L1_RULE + L2_RULE + "KEY LEVEL (shared with C02): adversarial argument pairs on 50 signature shapes; a call served from another tuple's entry is reported here as 'a value stored for other arguments'. Non-trivial = a lookup of a stored key (value must be the last one stored for that key); distinct = distinct (configuration, key, hit-count class, store size).",
      COMMON_ASSUME, ("C01", "lookups_of_stored_key"))
 prop("C05", ["l1", "l2"], "exploration",
      L1_RULE + L2_RULE + "Values: String, Vec<u8>, Vec<String>, Option<String>, Result<String,String>, (String,Vec<u32>), Box<String>, a user type with its own estimator; sizes around M/3, M/2, M-1, M, M+1, >M, with slack capacity. Sizes are measured by an independent footprint oracle. Non-trivial = a store under memory pressure; distinct = distinct (configuration, residents, order shape, size class).",
@@ -505,7 +505,7 @@ prop("C16", ["l1", "l2", "conc", "miri"], "exploration",
      L1_RULE + "Every operation runs under catch_unwind in a build with overflow checks and debug assertions. Non-trivial/distinct = configurations of the full product visited (each with overflow-heavy histories).",
      COMMON_ASSUME, ("C16", "ops_under_catch_unwind"))
 prop("C02", ["key", "l2"], "exploration",
-     "KEY LEVEL: 48 signature shapes (1-5 arguments over integers, floats, bool, char, String, &str, tuples, Option, nested Option, Vec, slices, Debug-derived struct and enum, &self methods with string-bearing receivers), each as #[cache] and #[cache_async], bodies return a fresh serial. "
+     "KEY LEVEL: 50 signature shapes (1-5 arguments over integers, floats, bool, char, String, &str, tuples, Option, nested Option, Vec, slices, Debug-derived struct and enum, &self methods with string-bearing receivers), each as #[cache] and #[cache_async], bodies return a fresh serial. "
      "Pairs of argument tuples a != b (structural/bitwise inequality, NaN excluded) are drawn from an adversarial alphabet (| \" \\ ' , ( ) [ ] space newline NUL DEL, the words Some/None, quote-separator-quote sequences), by single-position mutation, and by boundary shifting "
      "(render two neighbouring arguments with separators '', '|', ',', ' ', '\"|\"', ', ', move the boundary, re-parse); f(a); f(b); f(a) must execute twice and serve a its own serial; every 32 pairs the number of listed key strings must equal the number of distinct tuples stored. "
      "Non-trivial/distinct = distinct (function, a, b) pairs. " + L2_RULE + "There, a learned slot->key-string map must stay injective.",
@@ -635,7 +635,7 @@ def write_manifest():
             for (n, pth, txt) in [
                 ("l1", "harness/l1", "l1mon: sequential monitor at core level - real engines with harness-owned storage on a virtual clock vs the specification model (belief monitor)"),
                 ("l2", "harness/l2 (bin l2mon) + harness/corpus", "l2mon: sequential monitor at macro level over a generated corpus of #[cache]/#[cache_async] functions; scripted bodies, predicates and checks; key listing; stats; hand-polled futures"),
-                ("key", "harness/l2 (bin keymon)", "keymon: adversarial argument pairs, fresh serial per execution, on 48 signature shapes x 2 macros"),
+                ("key", "harness/l2 (bin keymon)", "keymon: adversarial argument pairs, fresh serial per execution, on 50 signature shapes x 2 macros"),
                 ("conc", "harness/l2 (bin concmon) + harness/vmon/src/lockmon.rs + vendor/lock_api", "concmon: serial randomised scheduler and free-running jitter driven from a hooked lock_api; deadlock = no enabled thread / wait-for cycle; quiescence probes; history checks"),
                 ("bad", "harness/badcorpus", "compile oracle: invalid attribute lists must fail cargo check, corrected twins must pass, the corpus must build"),
                 ("miri", "harness/miriprogs", "thorough tier: three small programs under Miri with many scheduler seeds"),
